@@ -119,6 +119,22 @@ int cmdRun(int argc, char** argv) {
 					savedEqual = saveToString(ca, false, false) == saveToString(cb, false, false);
 					NifFile da(*A), db(*B);
 					savedEqual = savedEqual && saveToString(da, true, true) == saveToString(db, true, true);
+					// ... and to the bytes of a model that was never copied: the file loaded again, taken through the same steps
+					{
+						NifFile ref;
+						if (ref.Load(samplePath(fn)) == 0) {
+							size_t st = 0;
+							for (auto& pa : h.a) {
+								if (pa["op"].s == "Copy") break;
+								if (pa["op"].s == "Edit") edit(ref, pa["edit"].s, i + st);
+								else if (pa["op"].s == "Save") saveToString(ref, pa["opt"].s == "default", pa["opt"].s == "default");
+								st++;
+							}
+							proj(&ref, ids); // the same queries the source has answered (some convert cached data lazily)
+							NifFile cc(*B);
+							savedEqual = savedEqual && saveToString(cc, false, false) == saveToString(ref, false, false);
+						}
+					}
 				}
 				else if (!side) {
 					// the side was destroyed earlier: nothing to do
